@@ -111,6 +111,11 @@ pub open spec fn common_gram(r: &Record, query: &TextRef) -> bool {
 pub open spec fn rec_prefix(r: &Record, query: &TextRef, w: int) -> bool {
     0 <= w < r.title.words@.len() && query.words@.len() >= 1 && !query.words@[0].fin && starts_with(word_chars(r.title.words@, r.title.chars@, w), tchars(query, 0))
 }
+// C13: the single query word has the same characters as word w of the record's title
+pub open spec fn rec_equal(r: &Record, query: &TextRef, w: int) -> bool {
+    0 <= w < r.title.words@.len() && query.words@.len() >= 1 && word_chars(r.title.words@, r.title.chars@, w).len() == tchars(query, 0).len()
+    && starts_with(word_chars(r.title.words@, r.title.chars@, w), tchars(query, 0))
+}
 // C04: the (first) query word is still being typed and is one explicit edit away from word w of the record's title (>= 5 characters,
 // three of them different)
 pub open spec fn rec_edit1(r: &Record, query: &TextRef, w: int, p: int) -> bool {
@@ -257,6 +262,36 @@ proof fn lemma_search_c04(st: &Store, query: &TextRef, ixs: Seq<usize>, hs: Seq<
         }
     }
 }
+proof fn lemma_search_c13(st: &Store, query: &TextRef, ixs: Seq<usize>, hs: Seq<Hit>, pos: Seq<int>, out: Seq<SearchResult>)
+    requires st.srch_ok(), text_wf(query), cand_src(ixs, st, query), trace_ok(ixs, hs, st.records@, query),
+        sel_ok(out, hs, pos, query, st.dividers.0@, st.dividers.1@),
+        hs.filter(passes(query)).len() <= st.limit ==> forall|i: int| 0 <= i < hs.len() && hm_spec(query, &#[trigger] hs[i]) ==> pos.contains(i),
+    ensures st.records@.len() <= st.limit && query.words@.len() == 1 ==> forall|j: int, w: int| 0 <= j < st.records@.len() && #[trigger] rec_equal(&st.records@[j], query, w)
+                ==> exists|k: int| 0 <= k < out.len() && (#[trigger] out[k]).id == st.records@[j].id,
+{
+    let recs = st.records@;
+    if recs.len() <= st.limit && query.words@.len() == 1 {
+        assert forall|j: int, w: int| 0 <= j < recs.len() && #[trigger] rec_equal(&recs[j], query, w) implies exists|k: int| 0 <= k < out.len() && (#[trigger] out[k]).id == recs[j].id by {
+            let r = &recs[j];
+            let qc = tchars(query, 0); let rc = word_chars(r.title.words@, r.title.chars@, w);
+            assert(query.words@[0].slice.0 < query.words@[0].slice.1);
+            assert(qc == word_chars(query.words@, query.chars@, 0));
+            assert(record_ok(r));
+            assert(qc.len() >= 1 && rc.len() >= 1 && qc[0] == rc[0]);
+            lemma_gram_prefix(qc, rc);
+            lemma_common_gram(query.words@, query.chars@, 0, r.title.words@, r.title.chars@, w);
+            assert forall|i: int| 0 <= i < hs.len() && ixs[i] == j as usize implies (#[trigger] hs[i]).rmatches@.len() >= 1 by {
+                assert(scored(hs[i], &recs[j], query));
+                assert(tchars(&hs[i].title, w) == rc);
+                assert(pair_equal(&hs[i].title, query, w));
+                assert(pair_prefix(&hs[i].title, query, w) || pair_equal(&hs[i].title, query, w));
+                assert(exists|jj: int| #![trigger pair_prefix(&hs[i].title, query, jj)] #![trigger pair_equal(&hs[i].title, query, jj)] pair_prefix(&hs[i].title, query, jj) || pair_equal(&hs[i].title, query, jj));
+                assert(tm_some(&hs[i].title, query, (hs[i].rmatches, hs[i].qmatches)));
+            }
+            lemma_search_recall(st, query, ixs, hs, pos, out, j);
+        }
+    }
+}
 proof fn lemma_shares_sym(a: Seq<char>, b: Seq<char>)
     requires shares_gram(a, b)
     ensures shares_gram(b, a)
@@ -322,6 +357,9 @@ impl Store {
             // the single query word being typed is among the hits
             self.records@.len() <= self.limit && query.words@.len() == 1 ==> forall|j: int, w: int| 0 <= j < self.records@.len() && #[trigger] rec_prefix(&self.records@[j], query, w)
                 ==> exists|k: int| 0 <= k < ret@.len() && (#[trigger] ret@[k]).id == self.records@[j].id, // [C03]
+            // C13 (one-word case): likewise when the single query word has the same characters as a title word
+            self.records@.len() <= self.limit && query.words@.len() == 1 ==> forall|j: int, w: int| 0 <= j < self.records@.len() && #[trigger] rec_equal(&self.records@[j], query, w)
+                ==> exists|k: int| 0 <= k < ret@.len() && (#[trigger] ret@[k]).id == self.records@[j].id, // [C13]
             // C04 (one typo, modulo the tokeniser): likewise when the single query word is one edit away from a title word of at least
             // five characters, three of them different
             self.records@.len() <= self.limit && query.words@.len() == 1 ==> forall|j: int, w: int, p: int| 0 <= j < self.records@.len() && #[trigger] rec_edit1(&self.records@[j], query, w, p)
@@ -444,6 +482,7 @@ impl Store {
             // C03
             lemma_search_c03(self, query, ixs@, hs, pos, __out0@);
             lemma_search_c04(self, query, ixs@, hs, pos, __out0@);
+            lemma_search_c13(self, query, ixs@, hs, pos, __out0@);
         }
         __out0
     }
